@@ -78,7 +78,7 @@ class Universe:
                 "x!=2": x != 2,
                 "z<u3": claripy.ULT(z, 3),
             }
-            self.E = {"x": x, "y": y, "z": z, "u": u, "x+y": x + y, "x+z": x + z, "y+u": y + u}
+            self.E = {"x": x, "y": y, "z": z, "u": u, "x+y": x + y, "x+z": x + z, "y+u": y + u}  # noqa
             self.X = {"none": (), "x==2": (x == 2,), "z==y+1": (z == y + 1,), "u==3": (u == 3,)}
             self.B = {"x==1": x == 1, "y<u2": claripy.ULT(y, 2), "x==z": x == z}
         else:
